@@ -154,6 +154,9 @@ func (g *Gen) Valid() *Req {
 		na = r.Range(2, g.O.MaxAlts)
 	}
 	nc := r.Range(1, g.O.MaxCrit)
+	if r.Bool(0.4) {
+		nc = g.O.MaxCrit // sizes are not uniformly small: many mechanisms only engage with 4-5 criteria
+	}
 	if q.Method == "choquetIntegral" && nc > 5 {
 		if g.O.MaxCrit >= 7 {
 			if nc > 7 {
@@ -679,4 +682,65 @@ func CloneJ(v interface{}) interface{} {
 		return s
 	}
 	return v
+}
+
+// RenameCriteria returns a copy of a request body in which every criterion id
+// is replaced consistently (criteria list, alternatives' values, weights,
+// thresholds, ELECTRE entries, Choquet capacity keys): a "sibling" request that
+// takes the same path through the same components with other names.
+func RenameCriteria(body J, suffix string) J {
+	ids := map[string]string{}
+	for _, c := range jarr(body["criteria"]) {
+		if id, ok := jmap(c)["id"].(string); ok {
+			ids[id] = id + suffix
+		}
+	}
+	var walk func(v interface{}) interface{}
+	renameKey := func(k string) string {
+		if n, ok := ids[k]; ok {
+			return n
+		}
+		if strings.Contains(k, ",") {
+			parts := strings.Split(k, ",")
+			changed := false
+			for i, p := range parts {
+				if n, ok := ids[p]; ok {
+					parts[i] = n
+					changed = true
+				}
+			}
+			if changed {
+				return strings.Join(parts, ",")
+			}
+		}
+		return k
+	}
+	walk = func(v interface{}) interface{} {
+		switch x := v.(type) {
+		case map[string]interface{}:
+			m := make(map[string]interface{}, len(x))
+			for k, e := range x {
+				if k == "id" {
+					if s, ok := e.(string); ok {
+						if n, ok := ids[s]; ok {
+							m[k] = n
+							continue
+						}
+					}
+				}
+				m[renameKey(k)] = walk(e)
+			}
+			return m
+		case []interface{}:
+			out := make([]interface{}, len(x))
+			for i, e := range x {
+				out[i] = walk(e)
+			}
+			return out
+		}
+		return v
+	}
+	out := walk(body).(map[string]interface{})
+	// alternatives' ids must stay as they are (only criteria are renamed)
+	return out
 }
